@@ -350,11 +350,14 @@ func diffClass(got, want []int64) string {
 	for _, x := range want {
 		wc[x]++
 	}
+	// classes in a fixed priority (never dependent on map iteration order)
+	for x := range cnt {
+		if wc[x] == 0 {
+			return "foreign-item"
+		}
+	}
 	for x, n := range cnt {
 		if n > wc[x] {
-			if wc[x] == 0 {
-				return "foreign-item"
-			}
 			return "item-repeated"
 		}
 	}
